@@ -86,6 +86,11 @@ type cpFault struct {
 	interceptReq func(st *cpModStream, m *spb.ModifyRequest) bool
 	modGet       func(*spb.GetResponse) *spb.GetResponse
 	flush        func(inner *server.Server, ctx context.Context, req *spb.FlushRequest) (*spb.FlushResponse, error)
+	// noFwd: the server rejects forward references instead of resolving them later
+	noFwd bool
+	// repeat: a target test that draws its order at random is run up to this many times and
+	// counts as flagging the fault when one run fails (0 = once)
+	repeat int
 }
 
 type cpService struct {
@@ -661,6 +666,16 @@ func cpFaults() []*cpFault {
 			},
 		},
 		{
+			// a server without server-side reordering: an entry that refers to something not yet
+			// installed is answered FAILED instead of being held. The test written for it sends a
+			// prefix, its group and its next-hop in a random order; five of the six orders contain
+			// a forward reference (eight runs all drawing the sixth: 6e-7)
+			name:    "rejects-forward-references",
+			targets: []string{"Add IPv4 entries that are resolved by NHG and NH, in random order"},
+			noFwd:   true,
+			repeat:  8,
+		},
+		{
 			name:    "fails-idempotent-deletes",
 			targets: []string{"Idempotent Delete entry - RIB ACK", "Idempotent Delete entry - FIB ACK"},
 			interceptReq: func(st *cpModStream, m *spb.ModifyRequest) bool {
@@ -730,14 +745,20 @@ func cpFaultCase(fi int, limit time.Duration) *CaseSpec {
 			if !hit || tt.FatalMsg != "" || tt.ErrorMsg != "" {
 				continue
 			}
-			srv, err := newCpServer([]string{"NON-DEFAULT-VRF"}, !tt.In.RequiresDisallowedForwardReferences, f)
-			if err != nil {
-				return t, err
+			res := ""
+			for run := 0; run <= f.repeat; run++ {
+				srv, err := newCpServer([]string{"NON-DEFAULT-VRF"}, !tt.In.RequiresDisallowedForwardReferences && !f.noFwd, f)
+				if err != nil {
+					return t, err
+				}
+				// a test that is still waiting for the faulty server after `limit` has not passed (the
+				// suite's own timeout is a minute; the thorough tier waits for it)
+				res = runCpTest(tt, srv, limit)
+				srv.stop()
+				if res != "" || f.repeat == 0 {
+					break
+				}
 			}
-			// a test that is still waiting for the faulty server after `limit` has not passed (the
-			// suite's own timeout is a minute; the thorough tier waits for it)
-			res := runCpTest(tt, srv, limit)
-			srv.stop()
 			v := "pass"
 			if res != "" {
 				v = "fail"
